@@ -29,7 +29,9 @@ def slim_prepare(case):
 
 
 def mon_c10_prepare(case, verdict, chk):
-    """C10 on one prepared workflow: corrupted workflows must be rejected (never accepted, never a crash)."""
+    """C10 on one prepared workflow: corrupted workflows must be rejected (never accepted, never a crash).
+    `C10:panic` is a regression detector: the model has no panic outcome (Arca.Props.C10.prepare_never_panics); the one
+    panic found by this slice (`!expr "$"`, index out of range in prepareExprDependencies) was fixed in /repo 1ef90ac."""
     v = case.get("verdict")
     cor = case.get("corruption", "none")
     if v == "panic":
@@ -117,6 +119,8 @@ SPEC_C10 = {
         "Arca.Props.C10.prepare_inv",
         "Arca.Props.C10.prepare_rejects_dangling",
         "Arca.Props.C10.prepare_rejects_cycle",
+        "Arca.Props.C10.prepare_rejects_root_ref",
+        "Arca.Props.C10.prepare_never_panics",
     ],
     "pins": PREPARE_PINS,
     "streams": [S_prepare(mon_c10_prepare)],
